@@ -144,7 +144,7 @@ def gen_jobs(rng, tier):
                "CREATE TABLE legacy.z (a int)", "CREATE TYPE legacy.e AS ENUM ('a')", "DROP TABLE IF EXISTS nosuch", "DROP TABLE nosuch, t", "ALTER TABLE t DROP COLUMN IF EXISTS nosuch",
                "COMMENT ON COLUMN t.nosuch IS 'x'", "COMMENT ON COLUMN a.b.c.d.e IS 'x'", "ALTER TABLE t RENAME COLUMN nosuch TO x"]:
         add("postgresql", SCHEMA_PG + st + ";\n", "-- name: Q :exec\nSELECT 1;\n", tag="schema:ddl")
-    for _ in range(150 if tier == "quick" else 5000):
+    for _ in range(1500 if tier == "quick" else 8000):
         hist = c08.gen_history(rng, rng.choice([3, 8, 15]))
         if rng.random() < 0.5:
             rng.shuffle(hist)        # out of order: mostly invalid
@@ -158,7 +158,7 @@ def gen_jobs(rng, tier):
                 lambda c, p: p.update(name="1bad"), lambda c, p: p.update(name=""), lambda c, p: p.update(emit_json_tags=True, json_tags_case_style="weird")):
         add("postgresql", SCHEMA_PG, "-- name: Q :one\nSELECT id, name FROM t;\n", cfg_extra=mod, tag="config:other")
     # byte-level streams
-    n = 400 if tier == "quick" else 20000
+    n = 5000 if tier == "quick" else 40000
     seeds = ["-- name: Q :one\n%s;\n" % s for s in PG_STATEMENTS]
     for _ in range(n):
         base = rng.choice(seeds)
